@@ -81,6 +81,84 @@ def candidate_loop_vars(prog):
     return rn, rr, mc, ch
 
 
+def context_rules(ctx, rule, prog):
+    """the stack of questions in flight (shared: C08.5, C10.3): the limit test, the duplicate test, push / pop, ownership,
+    capacity = RECURSION_LIMIT"""
+    C = cluster.CTX
+    # the stack of questions in flight: the one field of Context holding a Vec<Question> (whatever it is called)
+    qfields = [x["name"] for x in prog.adt(CTXT)["variants"][0]["fields"] if re.match(r"^std::vec::Vec<.*::Question>$", x["ty"])]
+    if len(qfields) != 1:
+        raise A.mir.AnchorMissing("Context: expected one Vec<Question> field, found %s" % qfields)
+    QS = qfields[0]
+    PQS = "param1." + QS
+    f = prog.fn(C + "at_recursion_limit")
+    r = A.Resolver(f)
+    for b, e in A.return_exprs(f, r):
+        ok = A.Bin({"Eq", "Ge"}, Call("Vec::<T, A>::len", Path(PQS)), Call("Vec::<T, A>::capacity", Path(PQS)))(e)
+        ctx.check(ok, rule, "at_recursion_limit", "len(question_stack) == capacity(question_stack)", "at_recursion_limit returns %s" % A.show(e), f.loc(b))
+    f = prog.fn(C + "is_duplicate_question")
+    r = A.Resolver(f)
+    c_ = A.Conds(f, r)
+    def q_equal(fc):
+        """an element of question_stack compared equal to the question"""
+        if fc[0] == "cmp" and fc[1] == "Eq":
+            a_, b_ = fc[2], fc[3]
+        elif fc[0] == "call" and fc[3] is True and len(fc[2]) == 2 and fc[1].endswith("::eq"):
+            a_, b_ = fc[2]
+        else:
+            return False
+        for x, y in ((a_, b_), (b_, a_)):
+            src = A.iter_elem_source(x)
+            if src is not None and A.path_str(src) == PQS and A.path_str(y) == "param2":
+                return True
+        return False
+    exhausted = lambda fc: fc[0] == "is" and fc[1] == "None" and A.peel(fc[2])[0] == "call" and A.peel(fc[2])[1].endswith("::next") \
+        and A.path_str(A.peel(A.peel(fc[2])[2][0])) == PQS
+    for b, e in A.return_exprs(f, r):
+        pe = A.peel(e)
+        if pe[0] == "const" and pe[2] is True:
+            ok = c_.guarded(b, q_equal)[0]                     # `.iter().any(|q| q == question)` / a hand-written loop
+        elif pe[0] == "const" and pe[2] is False:
+            ok = c_.guarded(b, exhausted)[0] and A.never_after(f, c_.edges_where(q_equal), b)
+        else:
+            ok = Call("contains", Path(PQS), Path("param2"))(e)
+        ctx.check(ok, rule, "is_duplicate_question", "true exactly when question_stack holds the question (contains / any / loop)", "is_duplicate_question returns %s" % A.show(e), f.loc(b))
+    f = prog.fn(C + "push_question")
+    r = A.Resolver(f)
+    ps = A.call_blocks(f, A.name_endswith("Vec::<T, A>::push"))
+    ctx.check(len(ps) == 1 and A.path_str(r.call_expr(ps[0][1], ps[0][0])[2][0]) == PQS
+              and A.path_str(r.call_expr(ps[0][1], ps[0][0])[2][1]) == "param2", rule, "push_question", "question_stack.push(question.clone())",
+              "push_question does not push its argument", f.loc())
+    f = prog.fn(C + "pop_question")
+    pp = A.call_blocks(f, A.name_endswith("Vec::<T, A>::pop"))
+    ctx.check(len(pp) == 1, rule, "pop_question", "question_stack.pop()", "pop_question does not pop", f.loc())
+    ws = A.who_writes(prog, CTXT, QS)
+    outs = sorted({w[0].key for w in ws if not w[0].file.endswith("context.rs")})
+    ctx.check(not outs, rule, "who-writes(question_stack)", "question_stack touched only inside context.rs (field is private)",
+              "question_stack written from %s" % outs)
+    fld = [x for x in prog.adt(CTXT)["variants"][0]["fields"] if x["name"] == QS]
+    ctx.check(bool(fld) and fld[0]["vis"] != "pub", rule, "question_stack:private", "field visibility: %s" % (fld[0]["vis"] if fld else "?"),
+              "question_stack is public", None)
+    f = prog.fn(C + "new")
+    r = A.Resolver(f)
+    for b, i, st in A.aggregates(f, CTXT):
+        e = r.rvalue(st["rv"], (b, i))
+        qs = dict(e[3])[QS]
+        ctx.check(Call("with_capacity", A.Param(4))(qs), rule, "Context::new:capacity", "question_stack = Vec::with_capacity(recursion_limit)",
+                  "question_stack initialised as %s" % A.show(qs), f.loc(b, i))
+    news = A.who_calls(prog, C + "new")
+    ctx.floor(rule, "Context::new call sites", len(news), 3)
+    lim = A.mir.const_val(prog.const("dns_resolver::RECURSION_LIMIT"))
+    ctx.check(isinstance(lim, int) and 1 <= lim <= 64, rule, "RECURSION_LIMIT", "RECURSION_LIMIT = %s" % lim, "RECURSION_LIMIT = %s (expected 1..64)" % lim)
+    for fn, b, t in news:
+        e = A.Resolver(fn).call_expr(t, b)
+        a = A.peel(e[2][3])
+        ok = a[0] == "const" and a[3] is not None and a[3].get("uneval") == "dns_resolver::RECURSION_LIMIT"
+        ctx.check(ok, rule, "Context::new@%s#%d" % (A.short(fn.root_key), news.index((fn, b, t))), "limit argument = RECURSION_LIMIT",
+                  "Context::new called with limit %s" % A.show(e[2][3]), fn.loc(b))
+
+
+
 def run(ctx):
     prog = ctx.prog
     ctx.rule("C08.1", "resolve_recursive/resolve_forwarding only await timeout(<=60 s, X_notimeout(..)); Elapsed -> Timeout error; nobody else enters X_notimeout from outside the cluster")
@@ -183,78 +261,7 @@ def run(ctx):
     cluster.check_pushpop(ctx, "C08.4", prog)
 
     # ---------------------------------------------------------------- C08.5
-    C = cluster.CTX
-    # the stack of questions in flight: the one field of Context holding a Vec<Question> (whatever it is called)
-    qfields = [x["name"] for x in prog.adt(CTXT)["variants"][0]["fields"] if re.match(r"^std::vec::Vec<.*::Question>$", x["ty"])]
-    if len(qfields) != 1:
-        raise A.mir.AnchorMissing("Context: expected one Vec<Question> field, found %s" % qfields)
-    QS = qfields[0]
-    PQS = "param1." + QS
-    f = prog.fn(C + "at_recursion_limit")
-    r = A.Resolver(f)
-    for b, e in A.return_exprs(f, r):
-        ok = A.Bin({"Eq", "Ge"}, Call("Vec::<T, A>::len", Path(PQS)), Call("Vec::<T, A>::capacity", Path(PQS)))(e)
-        ctx.check(ok, "C08.5", "at_recursion_limit", "len(question_stack) == capacity(question_stack)", "at_recursion_limit returns %s" % A.show(e), f.loc(b))
-    f = prog.fn(C + "is_duplicate_question")
-    r = A.Resolver(f)
-    c_ = A.Conds(f, r)
-    def q_equal(fc):
-        """an element of question_stack compared equal to the question"""
-        if fc[0] == "cmp" and fc[1] == "Eq":
-            a_, b_ = fc[2], fc[3]
-        elif fc[0] == "call" and fc[3] is True and len(fc[2]) == 2 and fc[1].endswith("::eq"):
-            a_, b_ = fc[2]
-        else:
-            return False
-        for x, y in ((a_, b_), (b_, a_)):
-            src = A.iter_elem_source(x)
-            if src is not None and A.path_str(src) == PQS and A.path_str(y) == "param2":
-                return True
-        return False
-    exhausted = lambda fc: fc[0] == "is" and fc[1] == "None" and A.peel(fc[2])[0] == "call" and A.peel(fc[2])[1].endswith("::next") \
-        and A.path_str(A.peel(A.peel(fc[2])[2][0])) == PQS
-    for b, e in A.return_exprs(f, r):
-        pe = A.peel(e)
-        if pe[0] == "const" and pe[2] is True:
-            ok = c_.guarded(b, q_equal)[0]                     # `.iter().any(|q| q == question)` / a hand-written loop
-        elif pe[0] == "const" and pe[2] is False:
-            ok = c_.guarded(b, exhausted)[0] and A.never_after(f, c_.edges_where(q_equal), b)
-        else:
-            ok = Call("contains", Path(PQS), Path("param2"))(e)
-        ctx.check(ok, "C08.5", "is_duplicate_question", "true exactly when question_stack holds the question (contains / any / loop)", "is_duplicate_question returns %s" % A.show(e), f.loc(b))
-    f = prog.fn(C + "push_question")
-    r = A.Resolver(f)
-    ps = A.call_blocks(f, A.name_endswith("Vec::<T, A>::push"))
-    ctx.check(len(ps) == 1 and A.path_str(r.call_expr(ps[0][1], ps[0][0])[2][0]) == PQS
-              and A.path_str(r.call_expr(ps[0][1], ps[0][0])[2][1]) == "param2", "C08.5", "push_question", "question_stack.push(question.clone())",
-              "push_question does not push its argument", f.loc())
-    f = prog.fn(C + "pop_question")
-    pp = A.call_blocks(f, A.name_endswith("Vec::<T, A>::pop"))
-    ctx.check(len(pp) == 1, "C08.5", "pop_question", "question_stack.pop()", "pop_question does not pop", f.loc())
-    ws = A.who_writes(prog, CTXT, QS)
-    outs = sorted({w[0].key for w in ws if not w[0].file.endswith("context.rs")})
-    ctx.check(not outs, "C08.5", "who-writes(question_stack)", "question_stack touched only inside context.rs (field is private)",
-              "question_stack written from %s" % outs)
-    fld = [x for x in prog.adt(CTXT)["variants"][0]["fields"] if x["name"] == QS]
-    ctx.check(bool(fld) and fld[0]["vis"] != "pub", "C08.5", "question_stack:private", "field visibility: %s" % (fld[0]["vis"] if fld else "?"),
-              "question_stack is public", None)
-    f = prog.fn(C + "new")
-    r = A.Resolver(f)
-    for b, i, st in A.aggregates(f, CTXT):
-        e = r.rvalue(st["rv"], (b, i))
-        qs = dict(e[3])[QS]
-        ctx.check(Call("with_capacity", A.Param(4))(qs), "C08.5", "Context::new:capacity", "question_stack = Vec::with_capacity(recursion_limit)",
-                  "question_stack initialised as %s" % A.show(qs), f.loc(b, i))
-    news = A.who_calls(prog, C + "new")
-    ctx.floor("C08.5", "Context::new call sites", len(news), 3)
-    lim = A.mir.const_val(prog.const("dns_resolver::RECURSION_LIMIT"))
-    ctx.check(isinstance(lim, int) and 1 <= lim <= 64, "C08.5", "RECURSION_LIMIT", "RECURSION_LIMIT = %s" % lim, "RECURSION_LIMIT = %s (expected 1..64)" % lim)
-    for fn, b, t in news:
-        e = A.Resolver(fn).call_expr(t, b)
-        a = A.peel(e[2][3])
-        ok = a[0] == "const" and a[3] is not None and a[3].get("uneval") == "dns_resolver::RECURSION_LIMIT"
-        ctx.check(ok, "C08.5", "Context::new@%s#%d" % (A.short(fn.root_key), news.index((fn, b, t))), "limit argument = RECURSION_LIMIT",
-                  "Context::new called with limit %s" % A.show(e[2][3]), fn.loc(b))
+    context_rules(ctx, "C08.5", prog)
 
     # ---------------------------------------------------------------- C08.6 / C08.7 (candidate loop)
     rn = prog.body_of(REC + "resolve_recursive_notimeout")
